@@ -358,7 +358,8 @@ func (m *ldbManager) Add(transaction Transaction) error {
 	m.changes.Lock()
 	defer m.changes.Unlock()
 
-	frontierIdentifier := GetFrontierIdentifier(db)
+	// db is the view at previous, whose own frontier identifier is always previous: compare with the real frontier
+	frontierIdentifier := GetFrontierIdentifier(NewLevelDBWrapper(m.ldb).Subset(frontierByte))
 
 	if previous == frontierIdentifier {
 		if err := m.ldb.Put(common.JoinBytes(patchByte, common.Uint64ToBytes(identifier.Height)), patch.Dump(), nil); err != nil {
